@@ -4,6 +4,9 @@ CONSTANTS Strategy = "rename"
           Locking = TRUE
           KeepEmpty = TRUE
           StampAt = "stat"
+          ObsFanout = "map"
+          GoneApply = "atomic"
+          EnvWhen = "absent"
 CONSTRAINT Hwm
 POSTCONDITION TraceAccepted
 CHECK_DEADLOCK FALSE
